@@ -253,9 +253,14 @@ def sched_block(batch, tag, scn, results, count):
 
 # ------------------------------------------------------------------------------------------ property-level classification
 def same_key(a, b, fixed_offset):
-    """same cache key: operation, LookupOptions.String(), argument UUIDs (before fix F16), plus Offset (after it)"""
-    return a["q"]["op"] == b["q"]["op"] and a["q"]["args"] == b["q"]["args"] and a["lostr"] == b["lostr"] and \
-        (not fixed_offset or a["q"]["lo"]["offset"] == b["q"]["lo"]["offset"])
+    """same cache key: operation, LookupOptions.String(), argument UUIDs (before fix F16), plus Offset (after it).
+    Exist takes no options: the memoizer keys it with storage.DefaultLookup, whatever options value the harness has at hand
+    (`lostr` is the rendering of that value and must not take part in the comparison)."""
+    if a["q"]["op"] != b["q"]["op"] or a["q"]["args"] != b["q"]["args"]:
+        return False
+    if a["q"]["op"] == "Exist":
+        return True
+    return a["lostr"] == b["lostr"] and (not fixed_offset or a["q"]["lo"]["offset"] == b["q"]["lo"]["offset"])
 
 
 def same_but_offset(a, b):
